@@ -44,6 +44,17 @@ CHECKS = {
         note="Trusted as for C01. NOT proved: cmd/out.go printers (black-box here; modelled under C23).",
         technique="Lean 4 proof of the token-layer/row core + black-box query-mode sweep keyed by site",
     ),
+    "C21": dict(
+        category="proof",
+        text="Full for the notation layer: Lean theorems state each documented equivalence as EQUALITY of the parsed value for every plain type name and every flag combination "
+             "(A|B|… vs array for type strings, return types and arguments; ?T return vs [T,NilClass]; ?T argument vs is_default; *T vs is_asterisk; [T] vs array of T and the "
+             "String/Int/Float array aliases; Int vs Integer; OptionalX; DefaultX). parseTypeString is defined by well-founded recursion (termination proved). The ConvertToBuiltinT table and the "
+             "builtin variable block are regenerated from defined_type.go each run, and the model is validated against the real parser (JSON-decoded as a config file) on thousands of generated "
+             "type strings. End-to-end: a generated class written once per notation gives byte-identical ti output.",
+        design="DESIGN.md §4 C21",
+        note="Trusted: Lean kernel, allowed axioms, extractor, streams, hooks (VerifParseTypeString/Arguments/ReturnType, VerifEncodeT). Assumed and only validated end-to-end: output is a function of the parsed values.",
+        technique="Lean 4 proof (equalities over all plain names, wf recursion) + regenerated table + differential stream + two-notation end-to-end comparison",
+    ),
 }
 
 PENDING_REASON = "check not built yet in this session (see DESIGN.md §4 for the planned Lean model and theorem); not claimed until its check exists"
